@@ -46,6 +46,9 @@ def check(ctx):
     # goes on into a second shard while inside the first must be refuted (binding: CacheTrace.tla, ~Holds at every *Locked)
     ctx.tlc_model("CacheLockOrderMC", "CacheLockOrderMC.cfg", workers=4)
     ctx.tlc_must_fail("CacheLockOrderMC", "CacheLockOrderNested.cfg", expect="Progress", workers=4)
+    # ... and for executions of every length (TLC explores two operations per process): the lock discipline, with "somebody can
+    # always move" among its conjuncts, is an inductive invariant - discharged symbolically by Apalache (3 readers, 2 writers)
+    ctx.apalache_inductive("LockOrderApa")
     table = ctx.tlc("CacheLockProbe", "CacheLockProbe.cfg", workers=1, want_cases=True).cases
     expect = {(t["holder"], t["probe"], t["same"]): t["enabled"] for t in table}
     for proto in ("ipfix", "v9"):
